@@ -168,7 +168,10 @@ ObsPanic(h, t, op) == [h EXCEPT !.panicked = @ \cup {op}, !.panicOn = @ \cup {<<
 
 \* A future_sync future (or any stored future) was dropped by its owner
 ObsDropped(h, t, f) ==
-  IF K(f) = "fsync" /\ h.scnt[f] = 0 THEN [h EXCEPT !.cancel = @ \cup {f}] ELSE h
+  IF K(f) = "fsync" /\ h.scnt[f] = 0 THEN [h EXCEPT !.cancel = @ \cup {f}]
+  \* dropping the future of suspend() gives up the resumer: the queue is to be resumed (as if the resumer had been dropped)
+  ELSE IF K(f) = "suspend" /\ h.res[f] = 0 THEN [h EXCEPT !.resumed = @ \cup {f}]
+  ELSE h
 
 ObsFire(h, g) == [h EXCEPT !.fired = @ \cup {g}]
 
